@@ -1128,6 +1128,13 @@ def oracle_c18(world, result):
             # derivatives of 1e8), not the unselected-branch NaNs the property is about
             P["vacuous_exploded_params"] = P.get("vacuous_exploded_params", 0) + 1
             continue
+        overflow_evidence = any(np.any(np.isinf(g)) or (np.isfinite(g).any() and float(np.nanmax(np.abs(np.where(np.isfinite(g), g, 0.0)))) > 1e30)
+                                for g in s["grads"] if g.size)
+        if p_fin and np.isfinite(loss) and abs(loss) > HUGE_LOSS and overflow_evidence:
+            # astronomically large loss AND gradient entries that are +-inf or beyond 1e30: float32 range is exhausted, a NaN
+            # next to them is inf - inf, not a branch-selection NaN
+            P["vacuous_huge_loss_overflow"] = P.get("vacuous_huge_loss_overflow", 0) + 1
+            continue
         if p_fin and np.isfinite(loss) and abs(loss) > HUGE_LOSS and not any(np.any(np.isnan(g)) for g in s["grads"]):
             # astronomically large but finite loss whose gradient leaves are finite or +-inf: the true
             # gradient may simply exceed float32 range; overflow is not the branch-selection defect the
